@@ -161,6 +161,9 @@ def r18_2_comment_inert(ctx):
         [("int", 1), ("store", a), ("load", a), ("pop",)],
         [("int", 1), ("store", a), ("int", 2), ("store", b), ("load", b), ("load", a)],
         [("int", 1), ("store", a), ("load", a), ("load", a)],
+        # a store that ends its block: whatever follows it in the block is at most a comment
+        [("int", 1), ("store", a)],
+        [("load", a), ("int", 1), ("store", a)],
     ]
     keyed = {}
     for base in bases:
@@ -174,7 +177,10 @@ def r18_2_comment_inert(ctx):
         plain = run(base)
         for pos in range(len(base) + 1):
             seq = base[:pos] + [("comment", "note")] + base[pos:]
-            got = run(seq)
+            try:
+                got = run(seq)
+            except (Raised, IndexError, KeyError) as r:
+                got = [f"<raises {type(r).__name__ if not isinstance(r, Raised) else r.exc_text[:40]}>"]
             text = "; ".join(" ".join(map(lambda x: x.name if isinstance(x, Sym) else str(x), s)) for s in seq)
             if got != plain:
                 between = pos > 0 and pos < len(base) and base[pos - 1][0] == "store" and base[pos][0] == "load" and base[pos - 1][1:] == base[pos][1:]
@@ -309,6 +315,11 @@ def run(ctx):
     _c04.r04_7_labels(ctx)  # label spellings: sanitised name + unique index, prefixes
     _c04.r04_6_placeholders(ctx)
     _c13.r13_1_bytes_forms(ctx)  # quoted text (method signatures, byte strings) cannot leak out of its token
+    from rules.lowering_sem import r15_7_relowering
+    from rules import c11 as _c11
+
+    r15_7_relowering(ctx)  # an annotated expression lowers to the same code every time it is lowered (shared with C15)
+    _c11.r11_8_object_state_inventory(ctx)  # a comment object keeps nothing from being lowered (shared with C11)
     return (
         "Abstract evaluation of Comment/CommentExpr/Assert(comment)/Pragma/Nonce lowering for texts with line breaks, comment markers, separators and quotes: the instruction stream "
         "is the annotated expression's and every comment op is single-line; comment ops inserted at every position of optimiser inputs; assembly of labels and comment ops; label "
